@@ -37,6 +37,8 @@ func errClass(err error) string {
 	switch {
 	case errors.Is(err, floatingip.ErrNoEnoughIP) || strings.Contains(m, floatingip.ErrNoEnoughIP.Error()):
 		return "not-enough-ip"
+	case strings.Contains(m, "waiting for cache to sync"):
+		return "lister-stale"
 	case strings.Contains(m, "waiting for delete event"):
 		return "waiting-for-delete"
 	case strings.Contains(m, "is running"):
@@ -363,6 +365,12 @@ func (w *World) Apply(line string) (final string, result string) {
 		var rerr error
 		if o := guard(func() { _, rerr = w.Plugin.VerifPluginUpdateConfigMap() }); o != "ok" {
 			return line, o
+		}
+		for _, c := range w.Cnt.Calls() {
+			if c.Failed && c.Verb == "delete" && c.Resource == "floatingips" {
+				// ConfigurePool ignores the error: the object of a de-configured address stays in the store
+				w.Mon["reload-delete-fault"] = true
+			}
 		}
 		if rerr != nil {
 			return line, "err other"
